@@ -119,6 +119,7 @@ package storage
 //@   ensures [failure-adds-nothing] err != nil ==> forall k string :: Dex[k] ==> old(Dex)[k]
 //@   ensures [other-statuses-untouched] forall k string :: k != mkkey(rls.Name, rls.Version) ==> Dst[k] == old(Dst)[k] && Dname[k] == old(Dname)[k] && Dver[k] == old(Dver)[k]
 //@   ensures [well-formed] ledgerWF()
+//@   ensures [C09] [creator-recorded] (err == nil ==> Dmine[mkkey(rls.Name, rls.Version)]) && (forall k string :: old(Dmine)[k] ==> Dmine[k]) && (err != nil ==> Dmine == old(Dmine))
 //@   ensures [C03] [attempt-recorded] Dattempt == store(old(Dattempt), mkkey(rls.Name, rls.Version), rls.Info.Status) || (err != nil && Dattempt == old(Dattempt))
 //@   ensures [C03] [manifest-recorded] (err == nil ==> Dman == store(old(Dman), mkkey(rls.Name, rls.Version), rls.Manifest)) && (err != nil ==> Dman == old(Dman))
 
